@@ -17,7 +17,7 @@ RULE = ('every rule of app.url_map under /v1/peer/ x {GET,HEAD,POST,PUT,DELETE,P
         'unchanged; send endpoints outside Established must write nothing and not report success; successful sends (C06/C07 message '
         'spaces as JSON incl. requests mixing IPv4 prefixes with an MP attribute, route-refresh for advertised and other families, bin_update) must put exactly the requested frame on the current '
         'connection; distinct = distinct (rule, method, credential case, state) and distinct sent messages')
-ASSUMPTIONS = ['one REST request = one atomic event between reactor callbacks (Flask test client)', 'reference encoder vlib/refenc.py for the IPv4 unicast comparison']
+ASSUMPTIONS = ['one REST request = one atomic event between reactor callbacks (Flask test client), except requests placed inside the instant of a close and sends whose queued write races the end of the session (DESIGN.md 15.3)', 'reference encoder vlib/refenc.py for the IPv4 unicast comparison']
 SHARD_TIMEOUT = {'quick': 400, 'thorough': 2400}
 METHODS = ['GET', 'HEAD', 'POST', 'PUT', 'DELETE', 'PATCH']
 SEND_RULES = ('send/update', 'send/route-refresh', 'send/bin_update')
